@@ -278,7 +278,7 @@ func (p *path) addRule(
 		i++
 		return l.toks[i]
 	}
-	invalid := func(tok token) { panic(fmt.Sprintf("invalid token: %v", tok)) }
+	invalid := func(tok token) error { return fmt.Errorf("invalid token: %v", tok) }
 
 	// Segments
 	tok := l.toks[i]
@@ -310,7 +310,12 @@ func (p *path) addRule(
 			switch nxt.typ {
 			case tokenEqual:
 				for nxt := next(); nxt.typ != tokenVariableEnd; nxt = next() {
-					vars = append(vars, nxt)
+					switch nxt.typ {
+					case tokenSlash, tokenStar, tokenStarStar, tokenLiteral:
+						vars = append(vars, nxt)
+					default:
+						return invalid(nxt)
+					}
 				}
 
 			case tokenVariableEnd:
@@ -321,7 +326,7 @@ func (p *path) addRule(
 				})
 
 			default:
-				invalid(nxt)
+				return invalid(nxt)
 			}
 
 			fds := fieldPath(fieldDescs, keys...)
@@ -334,7 +339,7 @@ func (p *path) addRule(
 			cursor = v.next
 
 		default:
-			invalid(tok)
+			return invalid(tok)
 		}
 	}
 
@@ -349,7 +354,7 @@ func (p *path) addRule(
 		// eof
 
 	default:
-		invalid(tok)
+		return invalid(tok)
 	}
 
 	y, ok := cursor.methods[verb]
